@@ -1,5 +1,79 @@
 #include "mpi_dispatcher/mpi_dispatcher.hpp"
 #include <numeric>
+#ifdef POMEROL_VERIF
+// Verification hooks: compiled only with -DPOMEROL_VERIF and inert unless these environment variables are set:
+//   POMEROL_VERIF_TRACE_DIR     append one line "<round> <event>" per dispatcher action to <dir>/rank<world rank>.trace
+//   POMEROL_VERIF_DELAY_SEED, POMEROL_VERIF_DELAY_MAX_US   pseudo-random delay before each job (called from mpi_skel.hpp)
+// Events: B begin of a dispatch round (rank, size, world rank of the root, jobs, include_boss); M master constructed
+// (k-th master of this process, job stack top first, worker pool); O j w order; P end of an order() that dispatched;
+// C w completion seen; F w Finish sent; K end of a check_workers() that saw or sent something; W j worker got work;
+// X worker got Finish; Y t worker's receive completed with another tag; R j job run; D report sent; E loop left.
+#include <cstdio>
+#include <cstdlib>
+#include <cstdarg>
+#include <string>
+#include <unistd.h>
+namespace pMPI {
+    static int verif_round_ = -1, verif_masters_ = -1;
+    static FILE* verif_file_ = NULL;
+    static std::string verif_dir_;
+    static int verif_world_rank_()
+    {
+        int init = 0, r = 0;
+        MPI_Initialized(&init);
+        if (init) MPI_Comm_rank(MPI_COMM_WORLD, &r);
+        return r;
+    }
+    void verif_trace(const char* fmt, ...)
+    {
+        const char* d = std::getenv("POMEROL_VERIF_TRACE_DIR");
+        if (d == NULL || *d == 0) return;
+        if (verif_file_ == NULL || verif_dir_ != d) {
+            if (verif_file_ != NULL) std::fclose(verif_file_);
+            verif_dir_ = d;
+            char name[64];
+            std::snprintf(name, sizeof(name), "/rank%d.trace", verif_world_rank_());
+            verif_file_ = std::fopen((verif_dir_ + name).c_str(), "a");
+            if (verif_file_ == NULL) return;
+        }
+        std::fprintf(verif_file_, "%d ", verif_round_);
+        va_list ap;
+        va_start(ap, fmt);
+        std::vfprintf(verif_file_, fmt, ap);
+        va_end(ap);
+        std::fputc('\n', verif_file_);
+        std::fflush(verif_file_);
+    }
+    void verif_round_begin(const boost::mpi::communicator& comm, int njobs, int include_boss)
+    {
+        ++verif_round_;
+        int root_world = 0, zero = 0;
+        MPI_Group gc, gw;
+        MPI_Comm_group(MPI_Comm(comm), &gc);
+        MPI_Comm_group(MPI_COMM_WORLD, &gw);
+        MPI_Group_translate_ranks(gc, 1, &zero, gw, &root_world);
+        MPI_Group_free(&gc);
+        MPI_Group_free(&gw);
+        verif_trace("B %d %d %d %d %d", comm.rank(), comm.size(), root_world, njobs, include_boss);
+    }
+    void verif_delay()
+    {
+        static unsigned long long state = 0, seeded_with = 0;
+        const char* s = std::getenv("POMEROL_VERIF_DELAY_SEED");
+        const char* m = std::getenv("POMEROL_VERIF_DELAY_MAX_US");
+        if (s == NULL || m == NULL) return;
+        unsigned long long seed = std::strtoull(s, NULL, 10), maxus = std::strtoull(m, NULL, 10);
+        if (maxus == 0) return;
+        if (state == 0 || seeded_with != seed) {
+            seeded_with = seed;
+            state = (seed + 1) * 6364136223846793005ULL + (unsigned long long)(verif_world_rank_() + 1) * 1442695040888963407ULL;
+            if (state == 0) state = 1;
+        }
+        state ^= state << 13; state ^= state >> 7; state ^= state << 17;   // xorshift64
+        ::usleep((useconds_t)(state % (maxus + 1)));
+    }
+}
+#endif
 
 namespace pMPI {
 
@@ -37,12 +111,20 @@ void MPIWorker::receive_order()
         Status = pMPI::WorkerTag(boost::get(st).tag());
         req = Comm.irecv(boss, MPI_ANY_TAG, current_job_);
         if(is_finished()) req.cancel();
+#ifdef POMEROL_VERIF
+        if (Status == pMPI::Work) verif_trace("W %d", current_job_);
+        else if (Status == pMPI::Finish) verif_trace("X");
+        else verif_trace("Y %d", int(Status));
+#endif
     }
 }
 
 void MPIWorker::report_job_done()
 {
     Comm.send(boss, int(pMPI::Pending));
+#ifdef POMEROL_VERIF
+    verif_trace("D");
+#endif
     Status = pMPI::Pending;
 }
 
@@ -57,6 +139,15 @@ void MPIMaster::fill_stack_()
         WorkerIndices[worker_pool[p]] = p;
         WorkerStack.push(worker_pool[p]);
     };
+#ifdef POMEROL_VERIF
+    {
+        std::string l = "M " + std::to_string((long long)(++verif_masters_)) + " J " + std::to_string((long long)Ntasks);
+        for (size_t i=0; i<Ntasks; i++) l += " " + std::to_string((long long)task_numbers[i]);
+        l += " W " + std::to_string((long long)Nprocs);
+        for (size_t p=0; p<Nprocs; p++) l += " " + std::to_string((long long)worker_pool[p]);
+        verif_trace("%s", l.c_str());
+    }
+#endif
 }
 
 bool MPIMaster::is_finished() const
@@ -131,10 +222,16 @@ void MPIMaster::order_worker(WorkerId worker, JobId job)
     //DEBUG(id << "->" << worker << " tag: work",MPI_DEBUG_VERBOSITY,1);
     DispatchMap[job]=worker;
     wait_statuses[WorkerIndices[worker]] = Comm.irecv(worker,int(pMPI::Pending));
+#ifdef POMEROL_VERIF
+    verif_trace("O %d %d", job, worker);
+#endif
 };
 
 void MPIMaster::order()
 {
+#ifdef POMEROL_VERIF
+    bool pv_any = !WorkerStack.empty() && !JobStack.empty();
+#endif
     while (!WorkerStack.empty() && !JobStack.empty()) {
         WorkerId& worker = WorkerStack.top();
         JobId& job = JobStack.top();
@@ -142,13 +239,22 @@ void MPIMaster::order()
         WorkerStack.pop();
         JobStack.pop();
     };
+#ifdef POMEROL_VERIF
+    if (pv_any) verif_trace("P");
+#endif
 };
 
 void MPIMaster::check_workers()
 {
+#ifdef POMEROL_VERIF
+    bool pv_any = false;
+#endif
     for (size_t i=0; i<Nprocs; i++) {
         if (wait_statuses[i].test()) {
             WorkerStack.push(worker_pool[i]);
+#ifdef POMEROL_VERIF
+            verif_trace("C %d", worker_pool[i]); pv_any = true;
+#endif
             };
     };
     if (JobStack.empty() && WorkerStack.size() >= Nprocs) {
@@ -157,9 +263,15 @@ void MPIMaster::check_workers()
                 //DEBUG(id << "->" << worker_pool[i] << " tag: finish",MPI_DEBUG_VERBOSITY,1);
                 Comm.send(worker_pool[i], int(pMPI::Finish));
                 workers_finish[i] = true; // to prevent double sending of Finish command that could overlap with other communication
+#ifdef POMEROL_VERIF
+                verif_trace("F %d", worker_pool[i]); pv_any = true;
+#endif
             }
         }
     }
+#ifdef POMEROL_VERIF
+    if (pv_any) verif_trace("K");
+#endif
 }
 
 } // end of namespace MPI
